@@ -97,7 +97,7 @@ impl Check for C01 {
         ]
     }
     fn shard(&self, ctx: &mut ShardCtx) {
-        let cases = ctx.tier.pick(2_500, 60_000);
+        let cases = ctx.tier.pick(9_000, 120_000);
         crate::prop::run(ctx, "general", cases, tape_strategy(700), |ctx, tape| {
             check_case(ctx, tape, PROFILE)
         });
